@@ -4,9 +4,10 @@ CONSTANTS
   MaxLabel = 4
   PayAlpha = {97, 122, 48, 57, 45, 90, 98, 252}
   MaxPay = 5
-  LongAlpha = {57, 97, 107}
-  LongMin = 6
-  LongMax = 8
+  LongPre = 3
+  LongAlpha = {57, 48, 97, 107, 113, 114}
+  LongMin = 2
+  LongMax = 5
   Reps = {1926, 1927, 2000}
   BigCPs = {1114111, 1114000}
   MaxLawLabels = 3
